@@ -165,6 +165,11 @@ pub fn run(tier: Tier) -> i32 {
         for (hi, h) in heads.iter().enumerate() {
             for l in lists.iter() {
                 // quick tier: two-operand lists in the non-default contexts only for every third head
+                // three-operand lists (thorough tier) in the plain context only: 13 contexts x 250
+                // heads x 70 000 such lists would not fit the memory
+                if l.len() == 3 && ci != 0 {
+                    continue;
+                }
                 // quick tier: the three "inside a body / arm" contexts take operand lists of length <= 1
                 if !tier.thorough() && ci >= 10 && l.len() > 1 {
                     continue;
